@@ -759,7 +759,7 @@ func run(c *vf.Ctx) {
 	}
 	c.RequireCounter("attacks_through_helper_library", int64(c.N(25, 400)))
 	c.RequireCounter("victim_callback_attacks_blocked", int64(c.N(10, 150)))
-	c.RequireCounter("references_stored_in_attacker_state", int64(c.N(3, 20)))
+	c.RequireCounter("references_stored_in_attacker_state", int64(c.N(1, 10)))
 	c.RequireCounter("metadata_only_object_changes", 1)
 	for _, v := range runVectors {
 		if _, _, _, f, _ := wrap(v, "vica", "x := 1; _ = x"); f != "" {
